@@ -927,3 +927,325 @@ Theorem release_safe cfg evs b r :
   (forall b' r', owns s b' r' = true ->
                  get (s_etcd s') (lease_key cfg r') = get (s_etcd s) (lease_key cfg r') /\ owns s' b' r' = true).
 Proof. intros Gd. apply inv_release_safe; [assumption|now apply inv_run]. Qed.
+
+(* ------------------------------------------------------------------ C19 *)
+
+(* the four steps of an Acquire call by broker b0 *)
+Definition acq_event (b0 : bytes) (ev : event) : Prop :=
+  exists r, ev = AcqBegin b0 r \/ ev = AcqTxn b0 r \/ ev = ReacqTxn b0 r \/ ev = AcqCommitLocal b0 r.
+
+Definition owned_mono (s s' : state) : Prop :=
+  forall b r, owns s b r = true -> owns s' b r = true.
+
+Lemma owned_mono_refl s : owned_mono s s.
+Proof. intros b r H. exact H. Qed.
+
+Lemma owned_mono_trans s1 s2 s3 : owned_mono s1 s2 -> owned_mono s2 s3 -> owned_mono s1 s3.
+Proof. intros A B b r H. apply B, A, H. Qed.
+
+Lemma owned_mono_set s e' b0 m' :
+  (forall r, alookup r (m_owned (get_mgr s b0)) <> None -> alookup r (m_owned m') <> None) ->
+  owned_mono s (mkState e' (set_mgr s b0 m')).
+Proof.
+  intros H b r O. unfold owns in *. destruct (bytes_eq_dec b b0) as [->|N].
+  - rewrite get_mgr_set_same. specialize (H r).
+    destruct (alookup r (m_owned (get_mgr s b0))); [|discriminate].
+    destruct (alookup r (m_owned m')); [reflexivity|]. exfalso. apply H; congruence.
+  - rewrite get_mgr_set_other by assumption. exact O.
+Qed.
+
+Ltac om_same := apply owned_mono_set; mgr_cbn; tauto.
+
+Lemma acq_step_owned_mono cfg s b0 ev :
+  acq_event b0 ev -> owned_mono s (fst (step cfg s ev)).
+Proof.
+  intros [r [-> | [-> | [-> | ->]]]]; cbn [step].
+  - destruct (m_closed _); [apply owned_mono_refl|].
+    destruct (alookup r (m_owned _)); [apply owned_mono_refl|].
+    destruct (alookup r (m_flights _)); [apply owned_mono_refl|].
+    destruct (m_session _); cbn [fst]; [om_same|]. destruct (grant _). cbn [fst]. om_same.
+  - destruct (alookup r (m_flights _)) as [[l|l|l rv]|]; try apply owned_mono_refl.
+    destruct (txn _ _ _ _) as [e' res]. destruct (t_err res); cbn [fst]; [om_same|].
+    destruct (t_succ res); cbn [fst]; [om_same|].
+    destruct (t_gets res) as [|[x|] ?]; cbn [fst]; try om_same.
+    destruct (bytes_eqb _ _); cbn [fst]; om_same.
+  - destruct (alookup r (m_flights _)) as [[l|l|l rv]|]; try apply owned_mono_refl.
+    destruct (txn _ _ _ _) as [e' res]. destruct (t_err res); cbn [fst]; [om_same|].
+    destruct (t_succ res); cbn [fst]; om_same.
+  - destruct (alookup r (m_flights _)) as [[l|l|l rv]|]; try apply owned_mono_refl.
+    destruct (session_is _ _); cbn [fst]; [|om_same].
+    apply owned_mono_set. mgr_cbn. intros r' H. destruct (bytes_eq_dec r r') as [<-|N].
+    + rewrite alookup_aset_same. discriminate.
+    + now rewrite alookup_aset_other.
+Qed.
+
+(* which step of an Acquire call can report success, and what holds then *)
+Lemma begin_ok cfg s b r :
+  snd (step cfg s (AcqBegin b r)) = Some AOk -> owns (fst (step cfg s (AcqBegin b r))) b r = true.
+Proof.
+  cbn [step]. destruct (m_closed _); [discriminate|]. unfold owns.
+  destruct (alookup r (m_owned (get_mgr s b))) eqn:O; cbn [fst snd]; [now rewrite O|].
+  destruct (alookup r (m_flights _)); [discriminate|].
+  destruct (m_session _); [discriminate|]. destruct (grant _). discriminate.
+Qed.
+
+Lemma txn_not_ok cfg s b r : snd (step cfg s (AcqTxn b r)) <> Some AOk.
+Proof.
+  cbn [step]. destruct (alookup r (m_flights _)) as [[l|l|l rv]|]; try discriminate.
+  destruct (txn _ _ _ _) as [e' res]. destruct (t_err res); [discriminate|].
+  destruct (t_succ res); [discriminate|].
+  destruct (t_gets res) as [|[x|] ?]; try discriminate. destruct (bytes_eqb _ _); discriminate.
+Qed.
+
+Lemma reacq_not_ok cfg s b r : snd (step cfg s (ReacqTxn b r)) <> Some AOk.
+Proof.
+  cbn [step]. destruct (alookup r (m_flights _)) as [[l|l|l rv]|]; try discriminate.
+  destruct (txn _ _ _ _) as [e' res]. destruct (t_err res); [discriminate|].
+  destruct (t_succ res); discriminate.
+Qed.
+
+Lemma commit_ok cfg s b r :
+  snd (step cfg s (AcqCommitLocal b r)) = Some AOk ->
+  owns (fst (step cfg s (AcqCommitLocal b r))) b r = true.
+Proof.
+  cbn [step]. destruct (alookup r (m_flights _)) as [[l|l|l rv]|]; try discriminate.
+  destruct (session_is _ _); [|discriminate]. intros _. cbn [fst]. unfold owns.
+  rewrite get_mgr_set_same. mgr_cbn. now rewrite alookup_aset_same.
+Qed.
+
+(* [acquire] is a composition of acquire steps *)
+Lemma acquire_spec cfg s b r :
+  let '(s', a) := acquire cfg s b r in
+  (c_guard cfg = true -> inv cfg s -> inv cfg s') /\ owned_mono s s' /\ (a = AOk -> owns s' b r = true).
+Proof.
+  unfold acquire.
+  pose proof (inv_acqbegin cfg s b r) as I1. pose proof (begin_ok cfg s b r) as K1.
+  pose proof (acq_step_owned_mono cfg s b (AcqBegin b r)) as M1.
+  destruct (step cfg s (AcqBegin b r)) as [s1 r1]. cbn [fst snd] in *.
+  assert (Mo1 : owned_mono s s1) by (apply M1; exists r; tauto).
+  destruct r1 as [a|].
+  { split; [tauto|]. split; [assumption|]. intros ->. now apply K1. }
+  pose proof (inv_acqtxn cfg s1 b r) as J2. pose proof (txn_not_ok cfg s1 b r) as K2.
+  pose proof (acq_step_owned_mono cfg s1 b (AcqTxn b r)) as M2.
+  destruct (step cfg s1 (AcqTxn b r)) as [s2 r2]. cbn [fst snd] in *.
+  assert (Mo2 : owned_mono s s2) by (eapply owned_mono_trans; [exact Mo1|apply M2; exists r; tauto]).
+  assert (I2 : c_guard cfg = true -> inv cfg s -> inv cfg s2) by tauto.
+  destruct r2 as [a|].
+  { split; [assumption|]. split; [assumption|]. intros ->. contradiction. }
+  pose proof (inv_reacqtxn cfg s2 b r) as J3. pose proof (reacq_not_ok cfg s2 b r) as K3.
+  pose proof (acq_step_owned_mono cfg s2 b (ReacqTxn b r)) as M3.
+  destruct (step cfg s2 (ReacqTxn b r)) as [s3 r3]. cbn [fst snd] in *.
+  assert (Mo3 : owned_mono s s3) by (eapply owned_mono_trans; [exact Mo2|apply M3; exists r; tauto]).
+  assert (I3 : c_guard cfg = true -> inv cfg s -> inv cfg s3) by tauto.
+  destruct r3 as [a|].
+  { split; [assumption|]. split; [assumption|]. intros ->. contradiction. }
+  pose proof (inv_commit cfg s3 b r) as J4. pose proof (commit_ok cfg s3 b r) as K4.
+  pose proof (acq_step_owned_mono cfg s3 b (AcqCommitLocal b r)) as M4.
+  destruct (step cfg s3 (AcqCommitLocal b r)) as [s4 r4]. cbn [fst snd] in *.
+  assert (Mo4 : owned_mono s s4) by (eapply owned_mono_trans; [exact Mo3|apply M4; exists r; tauto]).
+  assert (I4 : c_guard cfg = true -> inv cfg s -> inv cfg s4) by tauto.
+  destruct r4 as [a|].
+  - split; [assumption|]. split; [assumption|]. intros ->. now apply K4.
+  - split; [assumption|]. split; [assumption|]. discriminate.
+Qed.
+
+Lemma acquire_all_spec cfg b rs : forall s,
+  let '(s', res) := acquire_all cfg s b rs in
+  (c_guard cfg = true -> inv cfg s -> inv cfg s') /\ owned_mono s s' /\
+  length res = length rs /\
+  (forall r a, In (r, a) (combine rs res) -> a = AOk -> owns s' b r = true).
+Proof.
+  induction rs as [|r rs IH]; intros s; cbn [acquire_all].
+  - split; [tauto|]. split; [apply owned_mono_refl|]. split; [reflexivity|]. intros r a [].
+  - assert (H1 : let '(s1, a) := (if owns s b r then (s, AOk) else acquire cfg s b r) in
+                 (c_guard cfg = true -> inv cfg s -> inv cfg s1) /\ owned_mono s s1 /\ (a = AOk -> owns s1 b r = true)).
+    { destruct (owns s b r) eqn:O; [|apply acquire_spec].
+      split; [tauto|]. split; [apply owned_mono_refl|]. intros _. exact O. }
+    destruct (if owns s b r then (s, AOk) else acquire cfg s b r) as [s1 a].
+    destruct H1 as (I1 & M1 & K1).
+    specialize (IH s1). destruct (acquire_all cfg s1 b rs) as [s2 l].
+    destruct IH as (I2 & M2 & Ln & K2).
+    split; [intros Gd I; apply I2; [assumption|now apply I1]|].
+    split; [eapply owned_mono_trans; eassumption|].
+    split; [cbn; now rewrite Ln|].
+    intros r' a' H E. cbn [combine] in H. destruct H as [H|H].
+    + inversion H; subst r' a'. apply M2. now apply K1.
+    + now apply (K2 r' a').
+Qed.
+
+(* a partition without an entry in the error map got AOk from every Acquire for it *)
+Lemma lease_errors_none r : forall rs res acc,
+  alookup r (lease_errors rs res acc) = None ->
+  alookup r acc = None /\ (forall a, In (r, a) (combine rs res) -> a = AOk).
+Proof.
+  induction rs as [|r1 rs IH]; intros res acc H; cbn [lease_errors] in H.
+  - split; [assumption|]. intros a [].
+  - destruct res as [|a1 res]; [split; [assumption|intros a []]|].
+    apply IH in H. destruct H as [Hacc Hall].
+    assert (alookup r acc = None /\ (r1 = r -> a1 = AOk)) as [Ha Hr].
+    { destruct a1; try (split; [assumption|reflexivity]).
+      all: destruct (bytes_eq_dec r1 r) as [<-|N];
+        [rewrite alookup_aset_same in Hacc; discriminate
+        |rewrite alookup_aset_other in Hacc by assumption; split; [assumption|congruence]]. }
+    split; [assumption|]. intros a [Hin|Hin]; [inversion Hin; subst; now apply Hr|now apply Hall].
+Qed.
+
+Lemma In_combine_exists {A B} (l : list A) (l' : list B) x :
+  length l' = length l -> In x l -> exists y, In (x, y) (combine l l').
+Proof.
+  revert l'. induction l as [|a l IH]; intros [|b l'] Ln H; cbn in *; try lia; try tauto.
+  destruct H as [->|H]; [exists b; now left|].
+  destruct (IH l' (ltac:(lia)) H) as [y Hy]. exists y. now right.
+Qed.
+
+Lemma part_outcome_entered env errs topic p :
+  snd (part_outcome env errs topic p) = true ->
+  alookup (partition_rid topic (p_part p)) errs = None /\ pe_etcd_avail env = true /\ pe_s3_healthy env = true.
+Proof.
+  unfold part_outcome. destruct (pe_etcd_avail env); cbn [negb]; [|discriminate].
+  destruct (alookup _ errs) as [[| | |]|]; try discriminate.
+  destruct (pe_s3_healthy env); cbn [negb]; [tauto|discriminate].
+Qed.
+
+(* every partition entry for which the storage path is entered is owned by the broker
+   after the lease acquisition, in a state that satisfies the C18 invariant *)
+Theorem produce_entered_owned cfg env evs b req :
+  c_guard cfg = true -> pe_leasing env = true ->
+  let s := run cfg evs in
+  let s' := fst (produce cfg env s b req) in
+  let outs := snd (produce cfg env s b req) in
+  inv cfg s' /\
+  (forall b' r, owns s b' r = true -> owns s' b' r = true) /\
+  forall t p i j,
+    nth_error req i = Some t -> nth_error (t_parts t) j = Some p ->
+    forall out, nth_error outs i = Some out ->
+    forall o, nth_error out j = Some o ->
+    snd o = true ->
+    t_allowed t = true /\
+    owns s' b (partition_rid (t_topic t) (p_part p)) = true.
+Proof.
+  intros Gd Le. cbn zeta. unfold produce. rewrite Le.
+  pose proof (acquire_all_spec cfg b (req_rids req) (run cfg evs)) as Sp.
+  destruct (acquire_all cfg (run cfg evs) b (req_rids req)) as [s' res].
+  destruct Sp as (I & Mo & Ln & K). cbn [fst snd].
+  split; [apply I; [assumption|now apply inv_run]|]. split; [exact Mo|].
+  intros t p i j Ht Hp out Hout o Ho Hent.
+  rewrite nth_error_map, Ht in Hout. cbn in Hout. inversion Hout; subst out. clear Hout.
+  unfold topic_outcome in Ho. destruct (t_allowed t) eqn:Al.
+  2: { rewrite nth_error_map, Hp in Ho. cbn in Ho. inversion Ho; subst o. discriminate. }
+  split; [reflexivity|].
+  rewrite nth_error_map, Hp in Ho. cbn in Ho. inversion Ho; subst o. clear Ho.
+  apply part_outcome_entered in Hent. destruct Hent as (Hn & _ & _).
+  apply lease_errors_none in Hn. destruct Hn as [_ Hall].
+  assert (Hin : In (partition_rid (t_topic t) (p_part p)) (req_rids req)).
+  { unfold req_rids. apply in_flat_map. exists t. split; [eapply nth_error_In; eassumption|].
+    apply in_map_iff. exists p. split; [reflexivity|eapply nth_error_In; eassumption]. }
+  destruct (In_combine_exists _ res _ Ln Hin) as [a Ha].
+  apply (K _ a Ha). now apply Hall.
+Qed.
+
+(* success code => the storage path was entered (so, by the theorem above, lease held) *)
+Lemma part_outcome_success env errs topic p :
+  pe_bp_code env <> 0 -> fst (part_outcome env errs topic p) = 0 ->
+  snd (part_outcome env errs topic p) = true /\ p_down p = 0.
+Proof.
+  intros Bp. unfold part_outcome, REQUEST_TIMED_OUT, NOT_LEADER_OR_FOLLOWER.
+  destruct (pe_etcd_avail env); cbn [negb fst snd]; [|discriminate].
+  destruct (alookup _ errs) as [[| | |]|]; cbn [fst snd]; try discriminate.
+  destruct (pe_s3_healthy env); cbn [negb fst snd]; [tauto|]. intros H. contradiction.
+Qed.
+
+(* every non-success lease case is answered NOT_LEADER_OR_FOLLOWER or REQUEST_TIMED_OUT
+   and never reaches the storage path *)
+Lemma part_outcome_lease_error env errs topic p a :
+  pe_etcd_avail env = true ->
+  alookup (partition_rid topic (p_part p)) errs = Some a ->
+  part_outcome env errs topic p =
+    (match a with ANotOwner | AShutdown => NOT_LEADER_OR_FOLLOWER | _ => REQUEST_TIMED_OUT end, false).
+Proof.
+  intros Av H. unfold part_outcome. rewrite Av, H. cbn [negb]. destruct a; reflexivity.
+Qed.
+
+Lemma rid_in_req req i j t p :
+  nth_error req i = Some t -> nth_error (t_parts t) j = Some p ->
+  In (partition_rid (t_topic t) (p_part p)) (req_rids req).
+Proof.
+  intros Ht Hp. unfold req_rids. apply in_flat_map. exists t. split; [eapply nth_error_In; eassumption|].
+  apply in_map_iff. exists p. split; [reflexivity|eapply nth_error_In; eassumption].
+Qed.
+
+(* core of the produce-path theorems *)
+Lemma produce_core cfg env evs b req :
+  c_guard cfg = true -> pe_leasing env = true ->
+  let s := run cfg evs in
+  let s' := fst (produce cfg env s b req) in
+  inv cfg s' /\ owned_mono s s' /\
+  exists errs,
+    (forall t p i j out o,
+       nth_error req i = Some t -> nth_error (t_parts t) j = Some p ->
+       nth_error (snd (produce cfg env s b req)) i = Some out -> nth_error out j = Some o ->
+       if t_allowed t then o = part_outcome env errs (t_topic t) p
+       else o = (TOPIC_AUTHORIZATION_FAILED, false)) /\
+    (forall rid, In rid (req_rids req) -> alookup rid errs = None -> owns s' b rid = true).
+Proof.
+  intros Gd Le. cbn zeta. unfold produce. rewrite Le.
+  pose proof (acquire_all_spec cfg b (req_rids req) (run cfg evs)) as Sp.
+  destruct (acquire_all cfg (run cfg evs) b (req_rids req)) as [s' res].
+  destruct Sp as (I & Mo & Ln & K). cbn [fst snd].
+  split; [apply I; [assumption|now apply inv_run]|]. split; [exact Mo|].
+  exists (lease_errors (req_rids req) res []). split.
+  - intros t p i j out o Ht Hp Hout Ho.
+    rewrite nth_error_map, Ht in Hout. cbn in Hout. inversion Hout; subst out. clear Hout.
+    unfold topic_outcome in Ho.
+    destruct (t_allowed t); rewrite nth_error_map, Hp in Ho; cbn in Ho; now inversion Ho.
+  - intros rid Hin Hn. apply lease_errors_none in Hn. destruct Hn as [_ Hall].
+    destruct (In_combine_exists _ res _ Ln Hin) as [a Ha].
+    apply (K _ a Ha). now apply Hall.
+Qed.
+
+Theorem produce_safe cfg env evs b req :
+  c_guard cfg = true -> pe_leasing env = true ->
+  let s := run cfg evs in
+  let s' := fst (produce cfg env s b req) in
+  forall t p i j out o,
+    nth_error req i = Some t -> nth_error (t_parts t) j = Some p ->
+    nth_error (snd (produce cfg env s b req)) i = Some out -> nth_error out j = Some o ->
+    let rid := partition_rid (t_topic t) (p_part p) in
+    (snd o = true ->
+       owns s' b rid = true /\ key_owner cfg s' rid = Some b /\
+       (forall b', owns s' b' rid = true -> b' = b)) /\
+    (pe_bp_code env <> 0 -> fst o = 0 -> snd o = true /\ p_down p = 0) /\
+    (forall b', b' <> b -> owns s b' rid = true ->
+       snd o = false /\
+       (t_allowed t = true -> pe_etcd_avail env = true ->
+        fst o = NOT_LEADER_OR_FOLLOWER \/ fst o = REQUEST_TIMED_OUT)).
+Proof.
+  intros Gd Le. cbn zeta. intros t p i j out o Ht Hp Hout Ho.
+  destruct (produce_core cfg env evs b req Gd Le) as (I' & Mo & errs & Sh & Own). cbn zeta in *.
+  specialize (Sh t p i j out o Ht Hp Hout Ho).
+  pose proof (rid_in_req req i j t p Ht Hp) as Hin.
+  set (s' := fst (produce cfg env (run cfg evs) b req)) in *.
+  set (rid := partition_rid (t_topic t) (p_part p)) in *.
+  assert (Excl : owns s' b rid = true ->
+     owns s' b rid = true /\ key_owner cfg s' rid = Some b /\ (forall b', owns s' b' rid = true -> b' = b)).
+  { intros O. split; [assumption|]. split.
+    - destruct (inv_owner_bound cfg _ b _ I' O) as (S & rev & _ & _ & x & Gx & Vx & _).
+      unfold key_owner. rewrite Gx. cbn. now rewrite Vx.
+    - intros b' O'. apply (inv_single_owner cfg _ b' b _ I' O' O). }
+  destruct (t_allowed t) eqn:Al.
+  2: { subst o. cbn [fst snd]. unfold TOPIC_AUTHORIZATION_FAILED.
+       split; [discriminate|]. split; [discriminate|]. intros b' _ _. split; [reflexivity|discriminate]. }
+  subst o. split; [|split].
+  - intros E. apply part_outcome_entered in E. apply Excl. apply Own; tauto.
+  - intros Bp. now apply part_outcome_success.
+  - intros b' Nb O'. apply Mo in O'. fold s' in O'.
+    assert (Nown : owns s' b rid = true -> False).
+    { intros O. destruct (Excl O) as (_ & _ & U). apply Nb. now apply U. }
+    unfold part_outcome. fold rid.
+    destruct (alookup rid errs) as [a|] eqn:Ea.
+    2: { exfalso. apply Nown. now apply Own. }
+    destruct (pe_etcd_avail env); cbn [negb fst snd].
+    + destruct a; cbn [fst snd]; (split; [reflexivity|]); intros _ _;
+        unfold NOT_LEADER_OR_FOLLOWER, REQUEST_TIMED_OUT; tauto.
+    + split; [reflexivity|]. intros _ D. discriminate.
+Qed.
